@@ -22,7 +22,7 @@ SPEC = {
     'bounds': {'quick': {'trees_per_shard': 16, 'sequence_length': 4, 'sequences': 'all 6^1..6^4 sharded'},
                'thorough': {'trees': 'until the time budget', 'sequence_length': 6}},
     'floor': {'quick': 3000, 'thorough': 40000},
-    'required_counters': ['abort_points_hook', 'abort_points_between_yields', 'abort_points_line', 'thread_kills', 'raising_hook_runs',
+    'required_counters': ['pass_through_runs', 'abort_points_hook', 'abort_points_between_yields', 'abort_points_line', 'thread_kills', 'raising_hook_runs',
                           'call_sequences', 'truncating_kills'],
     'budget': {'quick': 45, 'thorough': 480},
     'shard_timeout': {'quick': 400, 'thorough': 1500},
@@ -94,6 +94,43 @@ class QuietRec(Rec):
     quiet = True
 
 
+class Sentinel:
+    def __repr__(self):
+        return '<sentinel>'
+
+
+PECULIAR = [0, '', False, (), b'', 0.0, [], {}, Sentinel(), ('x',), 'v', None, 1, frozenset(), None]
+
+
+class ValRec(Rec):
+    """Hooks return peculiar values (falsy but not None, unhashable, identical objects): what the run yields must be exactly the
+    values the hooks returned (on_skip / on_error: None means 'nothing'), the same objects in the same order."""
+
+    def on_init(self, **kw):
+        super().on_init(**kw)
+        self.returned = []
+        self.vi = kw.get('offset', 0)
+
+    def _value(self, always=False):
+        v = PECULIAR[self.vi % len(PECULIAR)]
+        self.vi += 1
+        if v is not None or always:
+            self.returned.append(v)
+        return v
+
+    def on_skip(self, base, name):
+        self._tick('skip', base, name)
+        return self._value()
+
+    def on_error(self, base, name):
+        self._tick('error', base, name)
+        return self._value()
+
+    def on_match(self, base, name):
+        self._tick('match', base, name)
+        return self._value(always=True)     # whatever on_match returns is the result for that file, None included
+
+
 def fresh(root, pat, excl, flags, quiet=False):
     return (QuietRec if quiet else Rec)(root, pat, excl, flags)
 
@@ -134,6 +171,21 @@ def check_tree(ctx, tr, rng, k, quick):
     nhooks = w.n
     skipped0 = w.get_skipped()
     ctx.evals()
+    # -- values returned by the hooks are passed through unchanged (falsy, unhashable, repeated objects; None alone is dropped)
+    for off in (k % len(PECULIAR), (k * 7 + 3) % len(PECULIAR)):
+        for use_imatch in (False, True):
+            wv = ValRec(root, pat, excl, flags, offset=off)
+            begin(wv)
+            wv.returned = []
+            wv.raise_at, wv.raise_in = ((k + off) % max(nhooks, 1), 'vfile') if off % 2 else (None, None)
+            got_v = list(wv.imatch()) if use_imatch else wv.match()
+            ctx.evals()
+            ctx.count('pass_through_runs')
+            if len(got_v) != len(wv.returned) or any(a is not b for a, b in zip(got_v, wv.returned)):
+                ctx.disagree('values returned by on_match / on_skip / on_error are not passed through unchanged',
+                             dict(wit0, mode='pass-through', offset=off, imatch=use_imatch, returned=[repr(x) for x in wv.returned[:12]],
+                                  yielded=[repr(x) for x in got_v[:12]]))
+                break
     # -- repeated full runs ------------------------------------------------------------------
     for _ in range(2):
         r0 = w.resets
